@@ -1,4 +1,5 @@
 #![allow(dead_code)]
+mod alloc_count;
 mod batch;
 mod drive;
 mod explore;
@@ -7,6 +8,9 @@ mod props;
 mod sched;
 
 use fw::{Prop, RunCfg, Tier};
+
+#[global_allocator]
+static GLOBAL: alloc_count::Counting = alloc_count::Counting;
 
 fn usage() -> ! {
     eprintln!("usage: engine run <ID> <quick|thorough> | engine worker <ID> <tier> | engine replay <ID> <file> | engine list");
